@@ -204,6 +204,46 @@ static varintBitmap *apply(varintBitmap *vb, const char *op, long a, long b,
         } else if (!f) {
             ret = 0; /* NULL: documented failure indication */
         }
+    } else if (!strcmp(op, "AsRuns")) {
+        /* the set arrives as a RUN container written by another producer of
+         * the documented serialisation (type 2, cardinality, run count,
+         * (start, length) pairs): the library itself only makes run containers
+         * of more than 4096 members, a reader must take them at any size */
+        static uint16_t vals[70000];
+        uint32_t n = 0;
+        f = GUARDED(n = varintBitmapToArray(vb, vals));
+        if (!f && n > 0) {
+            static uint8_t rb[9 + 4 * 70000];
+            uint32_t nr = 0;
+            size_t at = 9;
+            for (uint32_t i = 0; i < n;) {
+                uint32_t j = i;
+                while (j + 1 < n && vals[j + 1] == vals[j] + 1 && j + 1 - i < 65535) {
+                    j++;
+                }
+                uint16_t st = vals[i], ln = (uint16_t)(j - i + 1);
+                memcpy(rb + at, &st, 2);
+                memcpy(rb + at + 2, &ln, 2);
+                at += 4;
+                nr++;
+                i = j + 1;
+            }
+            rb[0] = 2;
+            memcpy(rb + 1, &n, 4);
+            memcpy(rb + 5, &nr, 4);
+            gbuf src = gb_alloc(at);
+            memcpy(src.p, rb, at);
+            varintBitmap *c = NULL;
+            f = GUARDED(c = varintBitmapDecode(src.p, at));
+            gb_free(&src);
+            ret = (long)at;
+            if (!f && c) {
+                varintBitmapFree(vb);
+                vb = c;
+            } else if (!f) {
+                ret = -1; /* a valid run-container serialisation was refused */
+            }
+        }
     } else if (!strcmp(op, "Codec")) {
         size_t n = 0;
         varintBitmap *c = NULL;
@@ -286,11 +326,11 @@ static void run_walk(char *spec) {
 static void random_walk(void) {
     static const char *ops[] = {"Add", "Remove", "AddRange", "RemoveRange",
                                 "AddRange", "Add", "Clone", "Codec", "Clear",
-                                "Or", "And", "Xor", "AndNot", "RAndNot", "AddMany", "Optimize"};
+                                "Or", "And", "Xor", "AndNot", "RAndNot", "AddMany", "Optimize", "AsRuns"};
     char buf[4096];
     size_t pos = 0;
     for (int s = 0; s < 40; s++) {
-        const char *op = ops[rng_u64() % 16];
+        const char *op = ops[rng_u64() % 17];
         long a = 0, b = 0;
         const char *k = "-";
         if (!strcmp(op, "Add") || !strcmp(op, "Remove")) {
@@ -308,7 +348,7 @@ static void random_walk(void) {
             }
         } else if (!strcmp(op, "AddMany")) {
             k = L[rng_u64() % (unsigned)nL].name;
-        } else if (!strcmp(op, "Clone") || !strcmp(op, "Codec") || !strcmp(op, "Clear") || !strcmp(op, "Optimize")) {
+        } else if (!strcmp(op, "Clone") || !strcmp(op, "Codec") || !strcmp(op, "Clear") || !strcmp(op, "Optimize") || !strcmp(op, "AsRuns")) {
             if (!strcmp(op, "Clear") && rng_u64() % 3) {
                 op = "Codec";
             }
